@@ -155,7 +155,7 @@ func c22LabelOK(c *storeCase, bad string) bool {
 }
 
 func runC22(c c22Case, st *vstat.Stats) *vstat.Failure {
-	return vstat.Catch(func() *vstat.Failure { return runC22x(c, st) })
+	return vstat.CatchBounded(60*time.Second, func() *vstat.Failure { return runC22x(c, st) })
 }
 
 func runC22x(c c22Case, st *vstat.Stats) *vstat.Failure {
